@@ -79,12 +79,14 @@ def run_shard(ctx):
             tdirs = sorted(indexlab.dirs_of(T))
             lazy_at = (top,) if rng.random() < 0.6 else rng.choice(tdirs)
 
-            # targets whose intermediate directories have no entry of their own (explicit file entries only): only with copies,
-            # where parents are created along with the files; convergence of files and bytes is all that is asserted there
-            implicit_parents = (not lazy) and link == "copy" and rng.random() < 0.3
+            # targets whose intermediate directories have no entry of their own (explicit file entries only), with every link
+            # type (only a copy creates the directories above its destination by itself); convergence of files and bytes is
+            # all that is asserted there
+            implicit_parents = (not lazy) and rng.random() < 0.3
             if implicit_parents:
                 Te = set()
                 res.count("implicit_parent_targets")
+                res.count(f"implicit_parent_targets/{link}")
 
             # two caches: one for the whole tree, one for a sub-directory (longest prefix wins, whatever the registration order)
             sub_cache = None
